@@ -295,6 +295,10 @@ MODES = {
     "fentry": (["-pg", "-mfentry", "-DNO_NESTED"], []),     # nested functions + -mfentry: known finding, see props/c01.py
     "cyg": (["-finstrument-functions"], []),
     "patchable": (["-fpatchable-function-entry=5"], ["-P", "."]),
+    # fentry NOPs enabled at run time by -P (needs non-PIC code)
+    "fentry-nop": (["-pg", "-mfentry", "-mnop-mcount", "-fno-pie", "-no-pie", "-DNO_NESTED"], ["-P", "."]),
+    # only some functions patched
+    "patch-some": (["-fpatchable-function-entry=5"], ["-P", "^f[0-4]$", "-P", "root", "-P", "main"]),
     "fentry-nested": (["-pg", "-mfentry"], []),             # only for the dedicated known-finding witness
 }
 
